@@ -9,7 +9,7 @@ PROP = {
                    "j-i+1 <= capacity + (tj-ti) x configured rate; tokens in [0, capacity]; min(0.5, rate) <= refill rate <= rate after every step; no release within 5 s "
                    "(min(5 x 2^(k-1), 30) s for the k-th failure in a row) after a 429/403/408/425; 5xx never raises the rate nor sets a penalty; success never lowers it; "
                    "every waiter is released within 30 s + (waiters+1)/min-rate after the last event."),
-    "level_note": "Real goroutines under the synctest scheduler; interleavings of concurrent waiters inside one polling tick are the runtime's. Capacity >= 1 (below one token Wait can never succeed). Eviction is outside this check (hosts <= maxBuckets); end-to-end origin timestamps are collected by the socket pipeline harness.",
+    "level_note": "Real goroutines under the synctest scheduler; interleavings of concurrent waiters inside one polling tick are the runtime's. Capacity >= 1 (below one token Wait can never succeed). Eviction is outside this check (hosts <= maxBuckets); the end-to-end side (archive() waits once per item and reports every response to the limiter under the key it waited on) is the C13/pipeline facet of the simulated-network harness: per host - also host:port - the window bound and 'no new request within 5 s after a 429/408/425 (403: open finding)' over the virtual arrival times of first attempts.",
     "rule": "rapid-generated event lists (1..40 events, capacity 1..20, rate 0.05..50/s incl. < 0.5/s); non-trivial = history with >= 1 failure and >= 1 release after it (manager facet: plus >= 2 hosts used); distinct = distinct case JSON",
     "assumptions": ["virtual time (testing/synctest, go1.26.8): time.Now/time.Sleep inside the bubble are the fake clock"],
     "units": [
@@ -17,6 +17,8 @@ PROP = {
          "facets": ["C13/bucket", "C13/manager"], "checks": (3000, 60000), "shards": (4, 16), "timeout": (600, 3000)},
         {"name": "c13kf1", "pkg": "./internal/pkg/archiver/ratelimiter", "run": "^TestVerifKF_C13_5xxRaisesRate$", "kind": "kf", "toolchain": "go126",
          "finding": "C13-5xx-raises-rate-below-half", "facets": [], "checks": (1, 1), "shards": (1, 1)},
+        {"name": "c13kf403", "pkg": "./internal/pkg/verifsim", "run": "^TestVerifKF_Sim_403NoPenalty$", "kind": "kf", "toolchain": "go126",
+         "finding": "C13-403-not-reported-to-limiter", "facets": [], "checks": (1, 1), "shards": (1, 1), "timeout": (300, 300)},
     ],
 }
 
